@@ -9,11 +9,17 @@ git -C /repo worktree add --detach "$S/repo" HEAD >/dev/null 2>&1 || exit 3
 cleanup() { git -C /repo worktree remove --force "$S/repo" >/dev/null 2>&1; rm -rf "$S"; }
 export TQDM_DISABLE=1
 run_demo() { (cd "$S" && PYTHONPATH=/verif/shim:"$S/repo" PYTHONDONTWRITEBYTECODE=1 timeout 900 /venv/bin/python "$SRC/demo.py" >"$S/demo.out" 2>&1; echo $?); }
-sed "s#/tmp/seed/C[0-9]*#$S/repo#g; s#/tmp/janus_shim#/verif/shim#g" "$SRC/demo.py" > "$S/demo_local.py"
-run_demo_local() { (cd "$S" && PYTHONPATH=/verif/shim:"$S/repo" PYTHONDONTWRITEBYTECODE=1 timeout 900 /venv/bin/python "$S/demo_local.py" >"$S/demo.out" 2>&1; echo $?); }
-D0=$(run_demo_local); echo "demo without change: exit=$D0 $(tail -1 "$S/demo.out" | cut -c1-120)"
+# the demo is run where it was written (the sub-agent's own worktree, paths are baked in)
+ORIG=$(dirname "$(dirname "$SRC")")
+if [ -e "$ORIG/.git" ]; then
+  git -C "$ORIG" checkout -- tel2puml
+  run_demo_orig() { (cd "$ORIG" && PYTHONPATH=/tmp/janus_shim:"$ORIG" PYTHONDONTWRITEBYTECODE=1 timeout 1500 /venv/bin/python "$SRC/demo.py" >"$S/demo.out" 2>&1; echo $?); }
+  D0=$(run_demo_orig); echo "demo without change: exit=$D0 $(tail -1 "$S/demo.out" | cut -c1-120)"
+  git -C "$ORIG" apply "$SRC/patch.diff" || echo "apply failed in $ORIG"
+  D1=$(run_demo_orig); echo "demo with change:    exit=$D1 $(grep -m1 -i fail "$S/demo.out" | cut -c1-160)"
+  git -C "$ORIG" checkout -- tel2puml
+fi
 git -C "$S/repo" apply "$SRC/patch.diff" || { echo "apply failed"; cleanup; exit 3; }
-D1=$(run_demo_local); echo "demo with change:    exit=$D1 $(grep -m1 -i fail "$S/demo.out" | cut -c1-160)"
 T=$(cd "$S/repo" && /venv/bin/python -m pytest -q -p no:cacheprovider --timeout=900 --continue-on-collection-errors 2>&1 | tail -1)
 echo "tests with change:   $T"
 mkdir -p "$S/ev" "$S/rp"
